@@ -532,3 +532,63 @@ def consume_cuts(ctx, res) -> None:
         res.failures.append(Failure("rabbit_consume_cut_leaves_message_in_flight", f"consume() cancelled after {k} loop iterations while it was "
                                     f"dead-lettering a message that expired in the buffer: places {pl}, unacknowledged and held by nobody: {stuck}, "
                                     f"not in exactly one place: {lost}", {"rabbit_consume_cut": {"k": k}}, None))
+
+
+def consume_waiting_cuts(ctx, res) -> None:
+    """consume() blocked on an empty local buffer; a message is published and, j loop iterations later, the consumer is finished:
+    the message ends either in the caller's hands (consume() returned it: unacknowledged, held) or back in its queue - never
+    unacknowledged and in nobody's hands (C01 / C03 on the RabbitMQ client)."""
+    import asyncio
+    from ..clock import CLOCK
+    from ..fakeamqp import ISSUER
+    from ..pyparams import mk_params
+    from ..world import key
+    problems = []
+
+    async def main(loop):
+        loop.set_exception_handler(lambda l, c: None)
+        for j in range(0, ctx.scale(14, 30)):
+            w = rabbitrun.RabbitWorld()
+            tok = ISSUER.set(("api",))
+            try:
+                await w.mb.queue_declare("q1")
+                cons = w.mb.get_consumer("q1", None, None)
+                await cons.start()
+                await w.settle()
+                t = asyncio.ensure_future(cons.consume())
+                for _ in range(5):
+                    await asyncio.sleep(0)
+                pub = asyncio.ensure_future(w.mb.enqueue(key("m1", "t1", "q1", 5), "p1", mk_params(ts=CLOCK.now_us())))
+                for _ in range(j):
+                    await asyncio.sleep(0)
+                await cons.finish()
+                await pub
+                await w.settle()
+                got = None
+                if t.done() and not t.cancelled():
+                    try:
+                        got = t.result()
+                    except Exception:  # noqa: BLE001
+                        pass
+                else:
+                    t.cancel()
+                    try:
+                        await t
+                    except asyncio.CancelledError:
+                        pass
+                await asyncio.sleep(0.15)          # a delivery that found the consumer finished is rejected 0.1 s later
+                await w.settle()
+            finally:
+                ISSUER.reset(tok)
+            pl = rabbitrun.w_state(w)["places"].get(1, [])
+            held = got is not None
+            res.count("rabbit_consume_waiting_cut_runs")
+            res.add_case(f"rabbit_consume_waiting:{j}:{held}:{[p[0] for p in pl]}", True)
+            if not (len(pl) == 1 and ((pl[0][0] == "unacked") == held)):
+                problems.append((j, [p[0] for p in pl], held))
+    run_virtual(main)
+    if problems:
+        j, pl, held = problems[0]
+        res.failures.append(Failure("rabbit_message_lost_between_delivery_and_finish", f"consume() waiting, publish, finish() {j} loop iterations later: "
+                                    f"the message is in {pl}, consume() returned it: {held} - unacknowledged and in nobody's hands, or in two places "
+                                    f"({len(problems)} of the cut points fail)", {"rabbit_consume_waiting_cut": {"j": j}}, None))
